@@ -340,3 +340,52 @@ Theorem C17_no_encrypt_to_stranger_with_kill_refuted :
     lookup c (a_ids (fst (step (fst (run (init false) pre)) i))) = None.
 Proof. exact no_encrypt_to_stranger_with_kill_refuted. Qed.
 Print Assumptions C17_no_encrypt_to_stranger_with_kill_refuted.
+
+(* ---- read fault during the trust decision.  IReadFault k = input k (key answer, message) arrives while the
+   identities table cannot be read (database locked past the busy timeout).  Every lookup of that table precedes every
+   store write of the handling and the code lets the OperationalError leave the stack: the handling aborts. ---- *)
+
+(* fails closed: no output; both tables, as the process sees them and as committed, the flag, the sent queue, the parked
+   messages and the retry counters are what they were; no key request appears (the answered one is forgotten) *)
+Theorem C17_read_fault_fails_closed : forall a k,
+  let a' := fst (step a (IReadFault k)) in
+  snd (step a (IReadFault k)) = [] /\
+  a_ids a' = a_ids a /\ a_sess a' = a_sess a /\ a_dids a' = a_dids a /\ a_dsess a' = a_dsess a /\
+  a_auto a' = a_auto a /\ a_sentq a' = a_sentq a /\ a_pend a' = a_pend a /\ a_retries a' = a_retries a /\
+  (forall iq x, lookup iq (a_iqs a') = Some x -> lookup iq (a_iqs a) = Some x).
+Proof. exact read_fault_fails_closed_thm. Qed.
+Print Assumptions C17_read_fault_fails_closed.
+
+(* histories with read faults (run ranges over all inputs: also restarts and kills): the remembered key stays;
+   C17_pin_survives_kill above gives the refusals in the final state *)
+Theorem C17_read_fault_keeps_pin : forall a ins c key,
+  a_auto a = false -> durable a -> no_wipe ins -> lookup c (a_ids a) = Some key ->
+  lookup c (a_ids (fst (run a ins))) = Some key.
+Proof. exact read_fault_keeps_pin_thm. Qed.
+Print Assumptions C17_read_fault_keeps_pin.
+
+(* non-vacuity, computed: pinned contact reinstalls; its bundle arrives under a read fault (nothing happens), then
+   readable (per-jid error); its first message arrives under a read fault and then readable (ignored both times) *)
+Theorem C17_read_fault_history :
+  snd (run (init false) history_read_fault) =
+  [ [OGetKeys 0 7]; [OMsg 7 1 EPk 50 0 1]; [ODeliver 7 2 2; OReceipt 7 2];
+    [OMsg 7 3 EMsg 50 1 1]; [OGetKeys 1 7]; [];
+    [OMsg 7 4 EMsg 50 2 1]; [OGetKeys 2 7]; [OErr 7];
+    []; []; [] ]
+  /\ lookup 7 (a_ids (fst (run (init false) history_read_fault))) = Some 1
+  /\ map s_ident (record_of (fst (run (init false) history_read_fault)) 7) = [1].
+Proof. exact read_fault_history_no_autotrust. Qed.
+Print Assumptions C17_read_fault_history.
+
+(* REFUTED for the variant that reads a failed lookup as "contact never seen" = trusted (seeded defect C17-11): the
+   bundle of a pinned contact with another identity is processed like a first contact's, auto-trust off *)
+Theorem C17_read_fault_trusted_refuted :
+  exists a c k k' sid iq,
+    a_auto a = false /\ durable a /\ lookup c (a_ids a) = Some k /\ k' <> k /\ lookup iq (a_iqs a) = Some (KNotify c) /\
+    trusted (a_ids a) c k' = false /\ trusted_when_unreadable (a_ids a) c k' = true /\
+    lookup c (a_dids (build_session a c k' sid)) = Some k' /\
+    map s_ident (record_of (build_session a c k' sid) c) = [k'; k] /\
+    lookup c (a_ids (fst (step a (IReadFault (KiKeys iq [(c, (k', sid))]))))) = Some k /\
+    lookup c (a_ids (fst (step a (IKeys iq [(c, (k', sid))])))) = Some k.
+Proof. exact read_fault_trusted_refuted. Qed.
+Print Assumptions C17_read_fault_trusted_refuted.
